@@ -15,6 +15,7 @@
 package zap
 
 import (
+	"bytes"
 	"fmt"
 
 	"github.com/RoaringBitmap/roaring/v2"
@@ -126,6 +127,12 @@ func (d *Dictionary) AutomatonIterator(a segment.Automaton,
 
 		itr, err := d.fst.Search(a, startKeyInclusive, endKeyExclusive)
 		if err == nil {
+			// the fst iterator does not apply the end bound to the key it is
+			// first positioned on (an empty range such as [k, k) or [k, ""))
+			if k, _ := itr.Current(); endKeyExclusive != nil &&
+				bytes.Compare(k, endKeyExclusive) >= 0 {
+				return rv
+			}
 			rv.itr = itr
 		} else if err != vellum.ErrIteratorDone {
 			rv.err = err
